@@ -574,4 +574,28 @@ theorem dstUnreach_mpls_roundtrip (proto typ : Nat) (ht : typ < 256) (hk : parse
     unfold validExtensions
     rcases hcases with ⟨h1, h2⟩ | ⟨h1, h2⟩ <;> subst h1 h2 <;> simp [hall, protocolICMP, protocolIPv6ICMP, v4DstUnreach, v6DstUnreach, v4TimeExceeded, v4ParamProb, v6TimeExceeded]
 
+/-- **InterfaceIdent by index** (RFC 8335, class 3 type 2) is represented faithfully. -/
+theorem objOK_identIndex (proto : Nat) (index : Int) (h : 0 ≤ index ∧ index < 4294967296) :
+    ObjOK proto (.ident 3 2 [] index 0 []) := by
+  have hb : Ext.bytes proto (.ident 3 2 [] index 0 []) = [0, 8, 3, 2] ++ be32 index := by
+    simp [Ext.bytes, identLen, typeInterfaceByName, typeInterfaceByIndex, be16, classInterfaceIdent, u8]
+  have hl : (be32 index).length = 4 := by simp [be32]
+  refine ⟨by rw [hb]; simp [hl, Ext.len, identLen, typeInterfaceByName, typeInterfaceByIndex],
+    by simp [Ext.len, identLen, typeInterfaceByName, typeInterfaceByIndex], ?_, ?_⟩
+  · intro b hbm
+    rw [hb] at hbm
+    simp only [List.mem_append, List.mem_cons, List.not_mem_nil, or_false, be32] at hbm
+    rcases hbm with (h1 | h1 | h1 | h1) | (h1 | h1 | h1 | h1) <;> omega
+  · intro fuel tail
+    rw [parseObjects_succ, hb]
+    have e := be32_rd32 index h.1 h.2 []
+    simp only [List.append_nil] at e
+    simp [rd16, be32, classMPLSLabelStack, classInterfaceInfo, classInterfaceIdent, parseIdent,
+      typeInterfaceByName, typeInterfaceByIndex, rd32] at e ⊢
+    rw [if_neg (by omega)]
+    have hv : max (index / 16777216 % 256) 0 * 16777216 + max (index / 65536 % 256) 0 * 65536 +
+        max (index / 256 % 256) 0 * 256 + max (index % 256) 0 = index := by omega
+    rw [hv]
+    cases parseObjects fuel tail <;> rfl
+
 end NetVerif.Proofs.C60
